@@ -363,7 +363,19 @@ func runC18(em *vEmitter, r *vRng) {
 			stuck = 1
 		}
 		// after the reload: where does a write go, and under which parameter set?
-		api.Add("probe", "probepw", false)
+		probed := make(chan struct{})
+		go func() { api.Add("probe", "probepw", false); close(probed) }()
+		select {
+		case <-probed:
+		case <-time.After(10 * time.Second):
+			// the agent no longer answers: report it (the wedged agent is left behind)
+			c := vCase{Prop: "C18", Kind: "reload", Class: "reload/" + kind, Nontrivial: true,
+				Human: map[string]interface{}{"kind": kind, "signals": 1 + k%3, "in_flight_requests_stuck": stuck == 1}}
+			c.Violation = fmt.Sprintf("after %d reload signal(s) (%s) a request is not answered within 10 s: the reload wedged the agent "+
+				"(requests in flight are to be answered normally, reload signals may arrive in any number)", 1+k%3, kind)
+			em.emit(c)
+			continue
+		}
 		inOld := fileExistsT(filepath.Join(ms.base, "probe.user"))
 		inNew := fileExistsT(filepath.Join(newBase, "probe.user"))
 		pid := firstLinePid(filepath.Join(ms.base, "probe.user"))
